@@ -239,7 +239,7 @@ class Node:
         # keys and origin-hosts as answers. This is mostly required for keeping
         # track of which requests have also received an answer, and for
         # retransmission checks.
-        self._origin_waiting_answer: dict[str, tuple[str, float]] = {}
+        self._origin_waiting_answer: dict[str, tuple[str, float, str]] = {}
         # A temporary list of sent end-by-end IDs, stored individually for each
         # origin-host, for retransmission check.
         self._sent_answers: dict[str, deque[int]] = {}
@@ -852,7 +852,7 @@ class Node:
             message_id = (f"{msg.header.hop_by_hop_identifier}:"
                           f"{msg.header.end_to_end_identifier}")
             self._origin_waiting_answer[message_id] = (
-                msg.origin_host, time.time())
+                msg.origin_host, time.time(), conn.ident)
 
         peer = self._find_connection_peer(conn)
         if peer:
@@ -1052,7 +1052,7 @@ class Node:
         waiting = self._origin_waiting_answer.pop(message_id, None)
         if waiting is None:
             return
-        origin_host, recv_time = waiting
+        origin_host, recv_time, _ = waiting
         process_time = time.time() - recv_time
 
         if origin_host not in self._sent_answers:
@@ -1491,6 +1491,11 @@ class Node:
         # Remove pending answer tracking; we cannot know if the peer will
         # persist its hop-by-hop IDs over reconnect.
         self._peer_waiting_answer.pop(conn.ident, None)
+        # requests of this connection that have not been answered never will
+        # be, their origin is not needed any longer
+        for message_id, waiting in list(self._origin_waiting_answer.items()):
+            if waiting[2] == conn.ident:
+                self._origin_waiting_answer.pop(message_id, None)
 
         # Check if this was the last available peer for an app and clear app
         # ready flag if so, resulting in `wait_for_ready` to block again.
